@@ -33,7 +33,10 @@
 (***************************************************************************)
 EXTENDS Integers, Sequences, FiniteSets, TLC, Json
 
-CONSTANTS NameExt,      \* "" | ".h5" | ".dmp" : the extension the logical name already carries
+CONSTANTS NameExt,      \* "" | ".h5" | ".dmp" : the extension the logical name already carries;
+                        \* ".5" : the name is 'data_T0.5' - a dot, but no engine extension - and a sibling
+                        \* 'data_T0.25' lives in the same directory (ops SaveSib / LoadSib)
+          NameRule,     \* "append" (the property) | "splitext" (an unknown suffix is REPLACED by the extension)
           Engine,       \* "h5netcdf" | "joblib"
           MaxLen,       \* length of the histories
           Policies,     \* subset of {"none", "true", "false"} : overwrite=None/True/False
@@ -51,21 +54,34 @@ VARIABLES dir,      \* set of file names present
           want,     \* PROPERTY LEVEL: what it holds (last saved / merged content)
           last,     \* observable outcome of the last operation
           hist,     \* the history, for emission
-          rt        \* part 2
+          rt,       \* part 2
+          sibLive,  \* PROPERTY LEVEL: the sibling dataset exists
+          sibWant   \* PROPERTY LEVEL: what it holds
 
-vars == <<dir, content, fmt, mem, sess, live, want, last, hist, rt>>
+sibv == <<sibLive, sibWant>>
+vars == <<dir, content, fmt, mem, sess, live, want, last, hist, rt, sibLive, sibWant>>
 
 Sites == {"save", "load", "loadNewTest", "mergeTest", "mergeLoad", "harvTest", "harvLoad", "harvRemove", "delete"}
 Ext(e) == IF e = "h5netcdf" THEN ".h5" ELSE ".dmp"
-Name == "data" \o NameExt
+Root == IF NameExt = ".5" THEN "data_T0" ELSE "data"
+Name == Root \o NameExt
+SibExt == ".25"
+SibName == Root \o SibExt
+KnownExt(x) == x \in {".h5", ".dmp"}
 
-(* THE naming rule *)
-FileOf(e) == IF NameExt # "" THEN Name ELSE Name \o Ext(e)
+(* THE naming rule: the name as given when it carries an engine extension, else the name with the
+   engine's extension APPENDED (whatever other dots the name contains) *)
+RuleFile(root, x, e) == IF KnownExt(x) THEN root \o x ELSE root \o x \o Ext(e)
+FileOf(e) == RuleFile(Root, NameExt, e)
+SibFileOf(e) == RuleFile(Root, SibExt, e)
 
+(* what the implementation computes *)
+CodeFile(root, x, e) == IF NameRule = "splitext" /\ x # "" /\ ~KnownExt(x) THEN root \o Ext(e) ELSE RuleFile(root, x, e)
 EngAt(site) == IF site \in DefEngSites THEN "h5netcdf" ELSE Engine
-FileAt(site) == IF site \in RawSites THEN Name ELSE FileOf(EngAt(site))
+FileAt(site) == IF site \in RawSites THEN Name ELSE CodeFile(Root, NameExt, EngAt(site))
+SibFileAt(site) == IF site \in RawSites THEN SibName ELSE CodeFile(Root, SibExt, EngAt(site))
 
-AllFiles == {"data", "data.h5", "data.dmp"}
+AllFiles == { n \o x : n \in {"data", "data.h5", "data.dmp", "data_T0", "data_T0.5", "data_T0.25"}, x \in {"", ".h5", ".dmp"} }
 
 Read(file, eng) ==
     IF file \notin dir THEN [st |-> "nofile", val |-> {}]
@@ -92,6 +108,7 @@ Init ==
     /\ last = Outcome("none", "ok", {}, {}, {})
     /\ hist = <<>>
     /\ rt = NoRt
+    /\ sibLive = FALSE /\ sibWant = {}
 
 (* save_ds(ds, name, engine) *)
 Save ==
@@ -106,6 +123,7 @@ Save ==
     /\ live' = TRUE /\ want' = {P}
     /\ last' = Outcome("Save", "ok", {}, {}, {})
     /\ UNCHANGED <<mem, sess, rt>>
+    /\ UNCHANGED sibv
 
 (* load_ds(name, engine) *)
 Load ==
@@ -116,6 +134,7 @@ Load ==
            /\ hist' = Append(hist, [op |-> "Load", pol |-> "none", p |-> 0, st |-> r.st,
                                     dir |-> dir, disk |-> [f \in dir |-> content[f]], val |-> r.val])
     /\ UNCHANGED <<dir, content, fmt, mem, sess, live, want, rt>>
+    /\ UNCHANGED sibv
 
 (* load_ds(name, engine, create_new=True, chunks=..): the stored content when the file the rule
    names exists, a blank dataset otherwise; never creates a file.  Lazy loading (chunks) is
@@ -131,6 +150,7 @@ LoadNew ==
            /\ hist' = Append(hist, [op |-> "LoadNew", pol |-> "none", p |-> 0, st |-> r.st, ch |-> ChunksAt(P),
                                     dir |-> dir, disk |-> [f \in dir |-> content[f]], val |-> r.val])
     /\ UNCHANGED <<dir, content, fmt, mem, sess, live, want, rt>>
+    /\ UNCHANGED sibv
 
 (* save_merge_ds(ds, name, overwrite=pol, engine=engine):
    exists? -> load old -> merge -> save_ds *)
@@ -153,6 +173,7 @@ SaveMerge(pol) ==
                        /\ last' = Outcome("SaveMerge", "ok", {}, r.val, WantOld)
                        /\ hist' = Log("SaveMerge", pol, "ok", dir \cup {f}, c)
     /\ UNCHANGED <<mem, sess, rt>>
+    /\ UNCHANGED sibv
 
 (* Harvester(runner, name, engine).add_ds(new, overwrite=pol)  [sync=True]:
    load_full_ds (test, load) -> merge with memory -> save_full_ds (remove, save_ds).
@@ -184,12 +205,13 @@ HarvSync(pol, fresh) ==
                        /\ last' = Outcome(opn, "ok", {}, old, WantOld)
                        /\ hist' = Log(opn, pol, "ok", d1, c)
     /\ UNCHANGED rt
+    /\ UNCHANGED sibv
 
 (* Harvester(runner, name, engine).delete_ds(); the object is dropped afterwards *)
 Delete ==
     /\ "Delete" \in OpsOn
     /\ Len(hist) < MaxLen
-    /\ dir # {}
+    /\ live                       \* only an existing dataset is deleted
     /\ LET f == FileAt("delete")
        IN  IF f \notin dir
               THEN /\ last' = Outcome("Delete", "nofile", {}, {}, {})
@@ -203,13 +225,37 @@ Delete ==
                    /\ last' = Outcome("Delete", "ok", {}, {}, {})
                    /\ hist' = Log("Delete", "none", "ok", dir \ {f}, [content EXCEPT ![f] = {}])
     /\ UNCHANGED rt
+    /\ UNCHANGED sibv
+
+(* the sibling name in the same directory: save_ds / load_ds only *)
+SaveSib ==
+    /\ "SaveSib" \in OpsOn
+    /\ Len(hist) < MaxLen
+    /\ LET f == SibFileAt("save")
+           c == [content EXCEPT ![f] = {P}]
+       IN  /\ dir' = dir \cup {f}
+           /\ content' = c
+           /\ fmt' = [fmt EXCEPT ![f] = Engine]
+           /\ hist' = Log("SaveSib", "none", "ok", dir \cup {f}, c)
+    /\ sibLive' = TRUE /\ sibWant' = {P}
+    /\ last' = Outcome("SaveSib", "ok", {}, {}, {})
+    /\ UNCHANGED <<mem, sess, live, want, rt>>
+
+LoadSib ==
+    /\ "LoadSib" \in OpsOn
+    /\ Len(hist) < MaxLen
+    /\ LET r == Read(SibFileAt("load"), Engine)
+       IN  /\ last' = Outcome("LoadSib", r.st, r.val, {}, {})
+           /\ hist' = Append(hist, [op |-> "LoadSib", pol |-> "none", p |-> 0, st |-> r.st,
+                                    dir |-> dir, disk |-> [f \in dir |-> content[f]], val |-> r.val])
+    /\ UNCHANGED <<dir, content, fmt, mem, sess, live, want, rt, sibLive, sibWant>>
 
 SaveMergeAny == \E pol \in Policies : SaveMerge(pol)
 HarvFresh == \E pol \in Policies : HarvSync(pol, TRUE)
 HarvSame == \E pol \in Policies : HarvSync(pol, FALSE)
 Finished == Len(hist) = MaxLen /\ UNCHANGED vars
 
-Next == Save \/ Load \/ LoadNew \/ Delete \/ SaveMergeAny \/ HarvFresh \/ HarvSame \/ Finished
+Next == Save \/ Load \/ LoadNew \/ SaveSib \/ LoadSib \/ Delete \/ SaveMergeAny \/ HarvFresh \/ HarvSame \/ Finished
 
 Spec == Init /\ [][Next]_vars
 
@@ -219,10 +265,15 @@ Spec == Init /\ [][Next]_vars
 TypeOK == dir \subseteq AllFiles /\ Len(hist) <= MaxLen
 
 (* the directory holds exactly the one file the rule names, or nothing *)
-DirExact == dir = IF live THEN {FileOf(Engine)} ELSE {}
+DirExact == dir = (IF live THEN {FileOf(Engine)} ELSE {}) \cup (IF sibLive THEN {SibFileOf(Engine)} ELSE {})
 
 (* ... and that file holds the last saved / merged content, in the caller's engine *)
-DiskIsWant == live => (content[FileOf(Engine)] = want /\ fmt[FileOf(Engine)] = Engine)
+DiskIsWant == /\ live => (content[FileOf(Engine)] = want /\ fmt[FileOf(Engine)] = Engine)
+              /\ sibLive => (content[SibFileOf(Engine)] = sibWant /\ fmt[SibFileOf(Engine)] = Engine)
+
+(* each name loads its own content *)
+LoadSibReturnsLast == last.op = "LoadSib" =>
+    IF sibLive THEN last.st = "ok" /\ last.val = sibWant ELSE last.st = "nofile"
 
 (* Load returns the last saved / merged content *)
 LoadReturnsLast == last.op = "Load" =>
@@ -244,7 +295,8 @@ MemIsDisk == (sess /\ last.op \in {"HarvFresh", "HarvSame"} /\ last.st = "ok") =
 
 EmitCase ==
     Len(hist) = MaxLen =>
-        PrintT(<<"CASE", ToJson([ext |-> NameExt, engine |-> Engine, file |-> FileOf(Engine), hist |-> hist])>>)
+        PrintT(<<"CASE", ToJson([ext |-> NameExt, engine |-> Engine, file |-> FileOf(Engine), name |-> Name, sib |-> SibName,
+                                 hist |-> hist])>>)
 
 -----------------------------------------------------------------------------
 (* Part 2: configurations of the round trip  Load(Save(d)) = d *)
@@ -287,6 +339,7 @@ RtInit ==
     /\ dir = {} /\ content = [f \in AllFiles |-> {}] /\ fmt = [f \in AllFiles |-> "none"]
     /\ mem = <<>> /\ sess = FALSE /\ live = FALSE /\ want = {}
     /\ last = Outcome("none", "ok", {}, {}, {}) /\ hist = <<>>
+    /\ sibLive = FALSE /\ sibWant = {}
     /\ \E c \in Configs : GoodConfig(c) /\ rt = [pc |-> "save", cfg |-> c]
 
 RtSave ==
@@ -296,18 +349,21 @@ RtSave ==
     /\ rt' = [pc |-> "eager", cfg |-> rt.cfg, data |-> "D", attrs |-> Stored(Engine, AttrsOf(rt.cfg.attrs))]
     /\ live' = TRUE
     /\ UNCHANGED <<content, mem, sess, want, last, hist>>
+    /\ UNCHANGED sibv
 
 RtLoadEager ==
     /\ rt.pc = "eager"
     /\ FileAt("load") \in dir
     /\ rt' = [rt EXCEPT !.pc = "lazy"] @@ [edata |-> rt.data, eattrs |-> rt.attrs]
     /\ UNCHANGED <<dir, content, fmt, mem, sess, live, want, last, hist>>
+    /\ UNCHANGED sibv
 
 RtLoadLazy ==
     /\ rt.pc = "lazy"
     /\ rt' = [rt EXCEPT !.pc = "done"] @@
              [ldata |-> IF RtRule = "lazyStale" /\ rt.cfg.chunks # "none" THEN "other" ELSE rt.data]
     /\ UNCHANGED <<dir, content, fmt, mem, sess, live, want, last, hist>>
+    /\ UNCHANGED sibv
 
 RtNext == RtSave \/ RtLoadEager \/ RtLoadLazy \/ (rt.pc = "done" /\ UNCHANGED vars)
 
@@ -321,6 +377,6 @@ RtNoDeadlock == rt.pc = "eager" => FileAt("load") \in dir
 
 RtEmit ==
     rt.pc = "done" =>
-        PrintT(<<"CASE", ToJson([ext |-> NameExt, engine |-> Engine, file |-> FileOf(Engine), cfg |-> rt.cfg,
+        PrintT(<<"CASE", ToJson([ext |-> NameExt, engine |-> Engine, file |-> FileOf(Engine), name |-> Name, cfg |-> rt.cfg,
                                  attrs |-> AttrsOf(rt.cfg.attrs), expect |-> Documented(Engine, AttrsOf(rt.cfg.attrs))])>>)
 =============================================================================
